@@ -126,6 +126,20 @@ func runFaultCase(o *Out, c fltCase) {
 		}
 		return v
 	}
+	// the class of the injected error (derived from the case, so that op lines and replays stay the same): a plain error,
+	// or one that wraps a well-known sentinel — a storage backend reporting its own cancellation or deadline, a short
+	// read. No such class is a reason to swallow the fault: the outcome must be the same.
+	injected := func(what string) error {
+		switch (farg(1)/int(c.bs+1) + len(c.bundles) + len(what)) % 4 {
+		case 1:
+			return fmt.Errorf("%s: %w", what, context.Canceled)
+		case 2:
+			return fmt.Errorf("%s: %w", what, context.DeadlineExceeded)
+		case 3:
+			return fmt.Errorf("%s: %w", what, io.ErrUnexpectedEOF)
+		}
+		return errors.New(what)
+	}
 	w := &missWatch{miss: map[string]int{}}
 	files := map[string][]byte{}
 	for _, bu := range c.bundles {
@@ -135,7 +149,7 @@ func runFaultCase(o *Out, c fltCase) {
 	inner := store.FileExistsFunc
 	store.FileExistsFunc = func(ctx context.Context, base string) (bool, error) {
 		if fp[0] == "exists" && base == fmt.Sprintf("%010d", farg(1)) {
-			return false, errors.New("injected exists failure")
+			return false, injected("injected exists failure")
 		}
 		return inner(ctx, base)
 	}
@@ -145,7 +159,7 @@ func runFaultCase(o *Out, c fltCase) {
 			return nil, dstore.ErrNotFound
 		}
 		if fp[0] == "open" && name == fmt.Sprintf("%010d", farg(1)) {
-			return nil, errors.New("injected open failure")
+			return nil, injected("injected open failure")
 		}
 		if fp[0] == "read" && name == fmt.Sprintf("%010d", farg(1)) {
 			dmg, limit := damage(content, fp[2], farg(3))
@@ -172,13 +186,13 @@ func runFaultCase(o *Out, c fltCase) {
 		k := calls
 		calls++
 		if fp[0] == "handler" && k == farg(1) {
-			return fmt.Errorf("injected handler failure")
+			return injected("injected handler failure")
 		}
 		return nil
 	})
 	pre := func(blk *pbbstream.Block) (interface{}, error) {
 		if fp[0] == "pre" && blk.Number == uint64(farg(1)) {
-			return nil, errors.New("injected preprocess failure")
+			return nil, injected("injected preprocess failure")
 		}
 		return "pp:" + blk.Id, nil
 	}
